@@ -144,7 +144,12 @@ func (e *explorer) exploreState(in *inst, prefix []event, used int) {
 	var commits [][]string
 	if rem >= 1 {
 		commits = e.inner(in, prefix, rem, true, top)
-		e.inner(in, prefix, rem, false, top)
+		if !e.tainted {
+			e.inner(in, prefix, rem, false, top)
+		}
+	}
+	if e.tainted {
+		return
 	}
 	for _, body := range commits {
 		if e.capped {
@@ -174,7 +179,9 @@ func (e *explorer) exploreState(in *inst, prefix []event, used int) {
 		e.transitions++
 		e.record(in2)
 		np := append(append([]event{}, prefix...), event{Body: body})
-		e.exploreState(in2, np, used+len(body)+2)
+		if !e.tainted {
+			e.exploreState(in2, np, used+len(body)+2)
+		}
 		in2.close()
 		if e.onExec != nil {
 			e.onExec(in)
@@ -187,7 +194,9 @@ func (e *explorer) exploreState(in *inst, prefix []event, used int) {
 		e.transitions++
 		e.record(in)
 		np := append(append([]event{}, prefix...), event{Reopen: true})
-		e.exploreState(in, np, used+1)
+		if !e.tainted {
+			e.exploreState(in, np, used+1)
+		}
 	}
 }
 
@@ -225,10 +234,12 @@ func (e *explorer) inner(in *inst, prefix []event, rem int, rw bool, top bool) [
 		in.begin(rw)
 		e.transitions++
 		e.txStates++
+		e.record(in)
 		if rem >= 2 {
 			in.end("rollback")
 			e.rollbacks++
 			e.transitions++
+			e.record(in)
 			if !rw {
 				in.hist = append([]string{}, base...)
 				in.quiet = true
